@@ -87,7 +87,43 @@ def case(spec):
     with Scratch('c19') as tmp:
         dest = os.path.join(tmp, 'dest')
         os.mkdir(dest)
-        if kind == 'dfs-valid':
+        if kind == 'dfs-valid' and idx % 4 == 3:
+            # titles and names with control characters (TAB, BEL, ESC ...): cat must lay them out identically in
+            # every build, whatever column they land on
+            from .. import discmodel as dm
+            ctl = '\t\t\t\x07\x1b\x0c\x01AB'
+            variant = rng.choice(['acorn', 'watford'])
+            first = 4 if variant == 'watford' else 2
+            ents = []
+            seen = set()
+            for i in range(rng.randint(2, 31)):
+                nm = ''.join(rng.choice(ctl) if rng.random() < 0.4 else rng.choice('XYZ12') for _ in range(rng.randint(1, 7)))
+                d = rng.choice('$$A\t')
+                if (d, nm.lower()) in seen:
+                    continue
+                seen.add((d, nm.lower()))
+                ents.append(dm.Entry(d, nm, rng.random() < 0.3, 0, 0, 10, first + i, b'0123456789'))
+            tl = rng.randint(0, 12)
+            title = ''.join(rng.choice('\t\t\x07T1') for _ in range(tl)).encode('latin1')
+            if variant == 'watford':
+                k = len(ents) // 2
+                cat = dm.Cat(title, 0, rng.getrandbits(8), 1, 400, dm.catalogue_order(ents[:k]), dm.catalogue_order(ents[k:]))
+            else:
+                cat = dm.Cat(title, 0, rng.getrandbits(8), 1, 400, dm.catalogue_order(ents))
+            surf = dm.Surface(variant, 40, 10, [dm.Volume(None, 0, 400, 0, cat)], rng.getrandbits(16), 0)
+            path = os.path.join(tmp, 'ctl.ssd')
+            raw = surf.image()
+            write_file(path, raw)
+            files = {'ctl.ssd': raw}
+            for ui in (None, 'acorn', 'watford', 'opus'):
+                for dopt in ([], ['--dir', 'A'], ['--dir', '\t']):
+                    pre = (['--ui', ui] if ui else []) + dopt
+                    compare(res, 'dfs', pre + ['--file', path, 'cat'], b'', tmp, files, 'dfs:cat-control-chars')
+                    res.sigs.append('dfs-ctl|%s|%s|%d' % (ui, ''.join(dopt), idx))
+            compare(res, 'dfs', ['--file', path, 'info', '#.*'], b'', tmp, files, 'dfs:info-control-chars')
+            compare(res, 'dfs', ['--file', path, 'show-titles'], b'', tmp, files, 'dfs:show-titles-control-chars')
+            res.sample = {'kind': kind, 'image': 'ctl.ssd', 'title': repr(title)}
+        elif kind == 'dfs-valid':
             img = make_image(rng, tmp, maxlen_sectors=12)
             files = {os.path.basename(img.path): open(img.path, 'rb').read()} if os.path.getsize(img.path) < 2000000 else {}
             cmds = []
